@@ -2,6 +2,7 @@ package main
 
 import (
 	"bufio"
+	"encoding/json"
 	"fmt"
 	"os"
 	"path/filepath"
@@ -28,14 +29,46 @@ type script struct {
 	reqSeq uint64
 	kind   string
 	dupReq bool // this script uses duplicate non-zero RequestIds (Less-incomparable pairs)
+	hist   []string
 }
 
-func (s *script) do(op string, f func() string) string { return s.out.Do(op, f) }
+// emit / tail: the op lines of the current script (since the last cfg) are the replay of a harness-side finding
+func (s *script) emit(op, res string) {
+	if strings.HasPrefix(op, "cfg ") {
+		s.hist = s.hist[:0]
+	}
+	s.hist = append(s.hist, op)
+	s.out.Emit(op, res)
+}
+
+func (s *script) tail(n int) []string {
+	h := s.hist
+	if len(h) > n {
+		h = append([]string{h[0]}, h[len(h)-n:]...)
+	}
+	return append([]string{}, h...)
+}
+
+func (s *script) do(op string, f func() string) string {
+	s.hist = append(s.hist, op)
+	res := s.out.Do(op, f)
+	s.afterOp(op)
+	return res
+}
+
+// afterOp: everything the pool handed out earlier is read again (World.CheckKept); a changed result is a
+// property-level fact the harness sees by itself and is written to the findings file next to obs.
+func (s *script) afterOp(op string) {
+	if d := s.w.CheckKept(op); d != "" && s.w.onFinding != nil {
+		s.w.onFinding("returned-batch-mutated", d)
+		s.w.resetKept()
+	}
+}
 
 func (s *script) reset(p016, p018, p021, p023 bool, limit int) {
 	var op string
 	res := hx.Guard(func() string { op = s.w.Reset(p016, p018, p021, p023, limit); return "ok" })
-	s.out.Emit(op, res)
+	s.emit(op, res)
 	s.all = nil
 	s.chain = nil
 	s.reqSeq = 100
@@ -43,7 +76,7 @@ func (s *script) reset(p016, p018, p021, p023 bool, limit int) {
 
 func (s *script) newTx(hash []byte, src string, nonce, req, gate uint64) int {
 	id, op := s.w.NewTx(hash, src, nonce, req, gate)
-	s.out.Emit(op, "ok")
+	s.emit(op, "ok")
 	s.all = append(s.all, id)
 	return id
 }
@@ -63,7 +96,8 @@ func (s *script) unmark(b block) string {
 }
 func (s *script) markz(k int, b block) string {
 	op, res := s.w.MarkZ(k, b.rids, b.tids, b.eids)
-	s.out.Emit(op, res)
+	s.emit(op, res)
+	s.afterOp(op)
 	return res
 }
 func (s *script) evq(id int) { s.do("evq "+strconv.Itoa(id), func() string { return strconv.FormatBool(s.w.Evicted(id)) }) }
@@ -312,7 +346,7 @@ func (s *script) randCfg() cfgT {
 func (s *script) resetAt(net string, h uint64, limit int) cfgT {
 	var op string
 	res := hx.Guard(func() string { op = s.w.ResetAt(net, h, limit); return "ok" })
-	s.out.Emit(op, res)
+	s.emit(op, res)
 	s.all = nil
 	s.chain = nil
 	s.reqSeq = 100
@@ -697,6 +731,45 @@ func (s *script) cutBoundaryScript(K, a int) {
 	s.pack()
 }
 
+// markCornersScript: receipts empty or not × evicted list empty or not × block list empty / equal to the receipts /
+// larger, evicted transactions pending here or unknown; packs, lookups and the evicted-cache query around it, then
+// the block is removed again.
+func (s *script) markCornersScript(nr, ne, extra int, evPending bool) {
+	s.reset(true, true, true, true, 0)
+	s.srcs = canonicalSources(s.r)
+	mk := func(n int, add bool) []int {
+		var ids []int
+		for i := 0; i < n; i++ {
+			s.reqSeq++
+			id := s.newTx(s.r.Bytes(32), s.srcs[i%5], 0, s.reqSeq, s.randGate())
+			ids = append(ids, id)
+			if add {
+				s.add(id)
+			}
+		}
+		return ids
+	}
+	rids := mk(nr, true)
+	eids := mk(ne, evPending)
+	skipped := mk(extra, true)
+	mk(2, true)
+	s.pack()
+	b := block{rids: rids, tids: append(append([]int{}, rids...), skipped...), eids: eids}
+	s.mark(b)
+	s.stat()
+	s.pack()
+	for _, id := range eids {
+		s.evq(id)
+		s.has(id)
+	}
+	s.unmark(b)
+	for _, id := range eids {
+		s.evq(id)
+	}
+	s.stat()
+	s.pack()
+}
+
 // corpus: "*.ops" files hold op lines; each is replayed against the real pool first.
 func (s *script) replayFile(path string) error {
 	f, err := os.Open(path)
@@ -744,7 +817,7 @@ func (s *script) known(ids ...int) bool {
 // replayLine executes one op line against the real pool (used for the corpus and by --replay).
 func (s *script) replayLine(line string) {
 	f := strings.Fields(line)
-	bad := func() { s.out.Emit(line, "bad-op") }
+	bad := func() { s.emit(line, "bad-op") }
 	switch {
 	case f[0] == "cfg" && len(f) == 6:
 		s.reset(f[1] == "1", f[2] == "1", f[3] == "1", f[4] == "1", atoi(f[5]))
@@ -805,6 +878,18 @@ func runCorr(a map[string]string, pool service.TransactionPool) {
 	defer out.Close()
 	r := hx.NewRng(hx.SeedFromEnv())
 	s := &script{w: newWorld(pool), out: out, r: r}
+	ff, _ := os.Create(a["obs"] + ".findings")
+	defer ff.Close()
+	nFind := 0
+	s.w.onFinding = func(key, desc string) {
+		if nFind < 5 {
+			// the op lines of the current script up to here are the replay
+			b, _ := json.Marshal(map[string]interface{}{"key": key, "desc": desc, "history": s.tail(400)})
+			ff.Write(append(b, 10))
+			ff.Sync()
+		}
+		nFind++
+	}
 	s.reset(true, true, true, true, 0)
 
 	if a["clear"] != "" {
@@ -832,7 +917,7 @@ func runCorr(a map[string]string, pool service.TransactionPool) {
 	// 2. malformed lines: the driver must answer bad-op to each (never default)
 	for _, l := range []string{"frob 1", "add", "add x", "add 999999", "tx 1 00 - 0 0 0", "cfg 1 1 1 2 0", "mark 1", "pack 1", "nonce zz 1",
 		"tx 1 " + strings.Repeat("00", 32) + " - 18446744073709551616 0 0", "less 1", "sort a,b"} {
-		s.out.Emit(l, "bad-op")
+		s.emit(l, "bad-op")
 	}
 	// 3. comparison function and sort, every proposal set that changes Less
 	for _, c := range []cfgT{{true, true, true, true}, {true, true, true, false}, {true, true, false, false}, {false, true, false, false}, {false, false, false, true}, {false, false, true, false}} {
@@ -843,6 +928,17 @@ func runCorr(a map[string]string, pool service.TransactionPool) {
 	s.bigBlocks()
 	s.bigBlocks()
 	s.lru()
+	// every corner of the MarkExecuted / UnMarkExecuted arguments
+	for _, nr := range []int{0, 1, 3} {
+		for _, ne := range []int{0, 1, 2} {
+			for _, extra := range []int{0, 2} {
+				for _, evp := range []bool{true, false} {
+					s.kind = "mark-corners"
+					s.markCornersScript(nr, ne, extra, evp)
+				}
+			}
+		}
+	}
 	// boundaries of the per-block limit (deterministic shapes; quick runs half of them)
 	thorough := a["tier"] == "thorough"
 	for _, K := range []int{199, 200, 201} {
